@@ -15,6 +15,18 @@ def run(ctx):
         ctx.violation("spec-invariant", stats["tlc_violation"][:500], stats)
         return finish(ctx, "model_checking", {"states": 1, "transitions": 1, "traces_validated_against_impl": 0,
                                               "samples": [stats]}, [])
+    # a user-supplied function inside sub-terms shared by several update expressions (chained growth over + * sat)
+    more, st2 = scen.generate(ctx, None, ("MC_EKF", "MC_C01usat_sim.cfg"), sim_num=(16 if quick else 200), sim_depth=100)
+    if more is None:
+        ctx.violation("spec-invariant", st2["tlc_violation"][:500], st2)
+    else:
+        more = [m for m in more if not m["def"]["control"] or True]
+        for m in more:
+            m["steps"] = [st for st in m["steps"] if st["act"] == "ModelEval"]
+        scns += [m for m in more if m["steps"]]
+        stats["states"] += st2.get("states", 0)
+        stats["transitions"] += st2.get("transitions", 0)
+        stats["tlc_runs"] = stats.get("tlc_runs", []) + st2.get("tlc_runs", [])
     checked, bad = scen.cross_validate_interp(scns)
     if bad:
         raise RuntimeError("reference interpreter disagrees with TLC on the rational fragment: %r" % (bad[:3],))
